@@ -3,6 +3,7 @@ import numpy as np
 
 from ...refdom import RefQuad
 from ..element_line import ElementLinePp
+from ..discrete_field import DiscreteField
 
 
 logger = logging.getLogger(__name__)
@@ -33,6 +34,21 @@ class ElementQuadP(ElementLinePp):
         self.dPx, self.dPy = np.zeros((0, 0, 1)), np.zeros((0, 0, 1))
         self.p = p
         self._X = np.array([])
+
+    def gbasis(self, mapping, X, i, tind=None):
+        out = super().gbasis(mapping, X, i, tind)
+        if 4 <= i < 4 + 4 * self.facet_dofs:
+            n, k = divmod(i - 4, self.facet_dofs)
+            if k % 2 == 1:
+                # odd edge modes change sign with the direction of the
+                # edge: orient them using the global vertex indices so
+                # that the two cells sharing an edge agree
+                t = mapping.mesh.t if tind is None else mapping.mesh.t[:, tind]
+                a, b = [(0, 1), (1, 2), (3, 2), (0, 3)][n]
+                sign = np.where(t[a] < t[b], 1., -1.)[:, None]
+                return (DiscreteField(value=sign * out[0].value,
+                                      grad=sign * out[0].grad),)
+        return out
 
     def lbasis(self, X, i):
         x, y = X
